@@ -1,1 +1,398 @@
-/- C14: property theorems (not built yet). -/
+/-
+  C14 — Aggregates over ranges follow Excel counting rules.
+
+  Statement (properties.jsonl): "SUM, AVERAGE, MIN, MAX and COUNT over ranges use exactly the numeric cells (ignoring
+  text, logicals and blanks), return the first error value present, and are invariant under permuting or reshaping
+  the cells; SUM is additive over a partition of the range, AVERAGE = SUM/COUNT (or #DIV/0! when nothing is numeric),
+  MIN/MAX of nothing numeric is 0; SUBTOTAL(n, ...) equals the AVERAGE/COUNT/MAX/MIN/SUM it names and SUMPRODUCT of
+  equally shaped ranges is the sum of pointwise products with non-numbers counted as 0."
+
+  Model: Pycel/Model/Aggregates.lean (excellib.py `_numerics`, `sum_`, `sumproduct`; lib/stats.py `average`, `count`,
+  `max_`, `min_`; excelformula.py `func_subtotal`).  The SUBTOTAL table is Generated/Subtotal.lean, regenerated from
+  the live `FunctionNode.SUBTOTAL_FUNCS` and the live function modules on every run.
+
+  All theorems are for ALL cell lists / arrays (lists of lists of `Val`), without a size bound.  `agg f` ranges over
+  the five aggregates (`Fn`), `aggA f a = agg f a.flatten` is the aggregate of a rectangle.
+  Interpretation recorded (DESIGN §7 C14): COUNT ignores error cells (Excel's and pycel's behaviour); the
+  "first error" clause applies to SUM / AVERAGE / MIN / MAX.  "First" is the row-major order of the range.
+-/
+import Pycel.Lemmas.Aggregates
+namespace Pycel.Agg
+open Pycel
+
+/-! ## "use exactly the numeric cells (ignoring text, logicals and blanks)" -/
+
+/-- the numbers an aggregate works on are exactly the numeric cells, in order -/
+theorem C14_nums_spec (cs : List Val) : (nums cs).map Val.num = cs.filter Val.isNum := nums_map_num cs
+
+/-- **numeric only**: without an error present, every aggregate of a range equals the aggregate of its numeric
+    cells alone -/
+theorem C14_numeric_only (f : Fn) (cs : List Val) (h : NoErr cs) :
+    agg f cs = agg f (cs.filter Val.isNum) := by
+  rw [← nums_map_num]
+  apply agg_congr
+  · rw [firstErr_eq_none.mpr h, firstErr_eq_none.mpr (noErr_map_num _)]
+  · rw [nums_of_map_num]
+
+/-- **ignoring = removing**: deleting every text, logical and blank cell changes no aggregate (errors present or not) -/
+theorem C14_ignore_remove (f : Fn) (cs : List Val) :
+    agg f (cs.filter fun v => !ignorable v) = agg f cs := by
+  apply agg_congr <;> induction cs with
+  | nil => rfl
+  | cons v cs ih => cases v <;> simp_all [firstErr_cons, nums_cons, ignorable]
+
+private theorem replace_aux (xs ys : List Val) (hl : xs.length = ys.length)
+    (h : ∀ p ∈ xs.zip ys, p.1 = p.2 ∨ (ignorable p.1 = true ∧ ignorable p.2 = true)) :
+    firstErr xs = firstErr ys ∧ nums xs = nums ys := by
+  induction xs generalizing ys with
+  | nil => cases ys with
+    | nil => exact ⟨rfl, rfl⟩
+    | cons y ys => simp at hl
+  | cons x xs ih =>
+    cases ys with
+    | nil => simp at hl
+    | cons y ys =>
+      have hxy := h (x, y) (by simp)
+      obtain ⟨h1, h2⟩ := ih ys (by simpa using hl) (fun p hp => h p (by simp [hp]))
+      rw [firstErr_cons, firstErr_cons, nums_cons, nums_cons]
+      rcases hxy with hxy | ⟨hx, hy⟩
+      · simp only [] at hxy; subst hxy; cases x <;> simp [h1, h2]
+      · cases x <;> cases y <;> simp_all [ignorable]
+
+/-- **ignoring = replacing**: replacing ignorable cells by arbitrary other ignorable cells (numeric text by a
+    logical, a blank by text, …) changes no aggregate -/
+theorem C14_ignore_replace (f : Fn) (xs ys : List Val) (hl : xs.length = ys.length)
+    (h : ∀ p ∈ xs.zip ys, p.1 = p.2 ∨ (ignorable p.1 = true ∧ ignorable p.2 = true)) :
+    agg f xs = agg f ys :=
+  agg_congr f (replace_aux xs ys hl h).1 (replace_aux xs ys hl h).2
+
+/-- numeric text is text: it is not counted and not added -/
+example : agg .sum [.num 1, .str "12".toList, .bool true, .blank] = .num 1 := by decide +kernel
+example : agg .count [.num 1, .str "12".toList, .bool true, .blank] = .num 1 := by decide +kernel
+
+/-! ## "return the first error value present" -/
+
+/-- **first error**: SUM, AVERAGE, MIN and MAX return the first error cell (row-major), whatever else the range holds -/
+theorem C14_first_error (f : Fn) (hf : f ≠ .count) (pre post : List Val) (e : Err) (h : NoErr pre) :
+    agg f (pre ++ Val.err e :: post) = .err e := by
+  rw [agg_eq_core, firstErr_pre pre post e h]
+  cases f <;> simp_all
+
+/-- COUNT (Excel and pycel) does not return errors: error cells are just not numeric -/
+theorem C14_count_ignores_errors (cs : List Val) :
+    count cs = count (cs.filter fun v => !v.isErr) ∧ ∃ k : Nat, count cs = .num (natRat k) := by
+  refine ⟨?_, _, rfl⟩
+  simp only [count]
+  congr 3
+  induction cs with
+  | nil => rfl
+  | cons v cs ih => cases v <;> simp_all [nums_cons, Val.isErr]
+
+/-! ## "invariant under permuting or reshaping the cells" -/
+
+/-- **permutation**: two rectangles (of any shapes) holding the same cells in any order have the same aggregates,
+    provided at most one distinct error value occurs (with two different errors "the first" depends on the order:
+    see the counterexample below) -/
+theorem C14_perm (f : Fn) (a b : Arr) (hp : a.flatten.Perm b.flatten) (h1 : OneErr a.flatten) :
+    aggA f a = aggA f b := agg_perm f hp h1
+
+/-- the restriction of `C14_perm` is necessary: the unrestricted statement is false -/
+theorem C14_perm_two_errors_counterexample :
+    ¬ (∀ (f : Fn) (l₁ l₂ : List Val), l₁.Perm l₂ → agg f l₁ = agg f l₂) := by
+  intro h
+  have := h .sum [.err .div0, .err .na] [.err .na, .err .div0] (List.Perm.swap _ _ _)
+  exact absurd this (by decide)
+
+/-- COUNT is permutation invariant without restriction -/
+theorem C14_perm_count (l₁ l₂ : List Val) (hp : l₁.Perm l₂) : agg .count l₁ = agg .count l₂ := count_perm hp
+
+/-- **reshape**: the aggregates depend on the row-major cell sequence only; in particular the same `r₁*c₁ = r₂*c₂`
+    cells laid out as `r₁ × c₁` or as `r₂ × c₂` give the same result (`chunk c r` cuts a list into `r` rows of `c`) -/
+theorem C14_reshape (f : Fn) :
+    (∀ a b : Arr, a.flatten = b.flatten → aggA f a = aggA f b) ∧
+    (∀ (cells : List Val) (r₁ c₁ r₂ c₂ : Nat), cells.length = r₁ * c₁ → cells.length = r₂ * c₂ →
+      aggA f (chunk c₁ r₁ cells) = aggA f (chunk c₂ r₂ cells) ∧ aggA f (chunk c₁ r₁ cells) = agg f cells) := by
+  refine ⟨fun a b h => by simp [aggA, h], fun cells r₁ c₁ r₂ c₂ h1 h2 => ?_⟩
+  simp [aggA, chunk_flatten, ← h1, ← h2]
+
+/-! ## "SUM is additive over a partition of the range" -/
+
+/-- addition of two aggregate results: numbers add, the left-most error wins -/
+def addV : Val → Val → Val
+  | .err e, _ => .err e
+  | .num _, .err e => .err e
+  | .num a, .num b => .num (a + b)
+  | a, _ => a
+
+theorem sum_isNumOrErr (cs : List Val) : (∃ q, sum_ cs = .num q) ∨ (∃ e, sum_ cs = .err e) := by
+  simp only [sum_, numerics]; cases firstErr cs <;> simp
+
+/-- **additive (consecutive parts)**: the SUM of a range cut in two (first part, rest) is the sum of the two SUMs -/
+theorem C14_sum_append (xs ys : List Val) : sum_ (xs ++ ys) = addV (sum_ xs) (sum_ ys) := by
+  simp only [sum_, numerics, firstErr_append, nums_append]
+  cases firstErr xs <;> cases firstErr ys <;> simp [addV, rsum_append]
+
+/-- the same for a rectangle cut between two rows -/
+theorem C14_sum_rows (a b : Arr) : aggA .sum (a ++ b) = addV (aggA .sum a) (aggA .sum b) := by
+  simp [aggA, agg, C14_sum_append]
+
+/-- **additive (any number of consecutive parts)** -/
+theorem C14_sum_partition (parts : List (List Val)) :
+    sum_ parts.flatten = (parts.map sum_).foldr addV (.num 0) := by
+  induction parts with
+  | nil => decide +kernel
+  | cons p ps ih => simp [C14_sum_append, ih]
+
+/-- **additive (arbitrary partition)**: split the cells of a range by ANY predicate (not only consecutive pieces);
+    the SUM is the sum of the SUMs of the two parts (at most one distinct error value, as for permutations) -/
+theorem C14_sum_filter_partition (p : Val → Bool) (cs : List Val) (h1 : OneErr cs) :
+    sum_ cs = addV (sum_ (cs.filter p)) (sum_ (cs.filter fun v => !p v)) := by
+  rw [← C14_sum_append]
+  have hp := (List.filter_append_perm p cs).symm
+  exact agg_perm .sum hp h1
+
+/-- COUNT is additive too (no restriction) -/
+theorem C14_count_append (xs ys : List Val) : count (xs ++ ys) = addV (count xs) (count ys) := by
+  simp [count, nums_append, natRat_add, addV]
+
+/-! ## "AVERAGE = SUM/COUNT (or #DIV/0! when nothing is numeric)" -/
+
+/-- quotient of two aggregate results -/
+def divV : Val → Val → Val
+  | .err e, _ => .err e
+  | .num s, .num n => if n = 0 then .err .div0 else .num (s / n)
+  | a, _ => a
+
+/-- **average** -/
+theorem C14_average (cs : List Val) : average cs = divV (sum_ cs) (count cs) := by
+  simp only [average, sum_, count, numerics]
+  cases firstErr cs <;> simp [divV, natRat_eq_zero]
+
+/-- spelled out: no error and nothing numeric gives #DIV/0! -/
+theorem C14_average_empty (cs : List Val) (h : NoErr cs) (hn : ∀ q, Val.num q ∉ cs) : average cs = .err .div0 := by
+  have : nums cs = [] := by
+    cases hc : nums cs with
+    | nil => rfl
+    | cons q qs => exact absurd (mem_nums.mp (by rw [hc]; simp)) (hn q)
+  simp [average, numerics, firstErr_eq_none.mpr h, this]
+
+/-! ## "MIN/MAX of nothing numeric is 0" -/
+
+theorem C14_minmax_empty (cs : List Val) (h : NoErr cs) (hn : ∀ q, Val.num q ∉ cs) :
+    min_ cs = .num 0 ∧ max_ cs = .num 0 := by
+  have : nums cs = [] := by
+    cases hc : nums cs with
+    | nil => rfl
+    | cons q qs => exact absurd (mem_nums.mp (by rw [hc]; simp)) (hn q)
+  simp [min_, max_, numerics, firstErr_eq_none.mpr h, this]
+
+/-- otherwise MIN is a numeric cell of the range that is ≤ every numeric cell -/
+theorem C14_min_spec (cs : List Val) (h : NoErr cs) (hn : ∃ q, Val.num q ∈ cs) :
+    ∃ m, min_ cs = .num m ∧ Val.num m ∈ cs ∧ ∀ q, Val.num q ∈ cs → m ≤ q := by
+  obtain ⟨q0, hq0⟩ := hn
+  have hne : nums cs ≠ [] := List.ne_nil_of_mem (mem_nums.mpr hq0)
+  refine ⟨minOf (nums cs), ?_, mem_nums.mp (minOf_mem hne), fun q hq => minOf_le q (mem_nums.mpr hq)⟩
+  have := agg_eq_core .min cs
+  simpa [agg, firstErr_eq_none.mpr h, core] using this
+
+/-- and MAX a numeric cell that is ≥ every numeric cell -/
+theorem C14_max_spec (cs : List Val) (h : NoErr cs) (hn : ∃ q, Val.num q ∈ cs) :
+    ∃ m, max_ cs = .num m ∧ Val.num m ∈ cs ∧ ∀ q, Val.num q ∈ cs → q ≤ m := by
+  obtain ⟨q0, hq0⟩ := hn
+  have hne : nums cs ≠ [] := List.ne_nil_of_mem (mem_nums.mpr hq0)
+  refine ⟨maxOf (nums cs), ?_, mem_nums.mp (maxOf_mem hne), fun q hq => le_maxOf q (mem_nums.mpr hq)⟩
+  have := agg_eq_core .max cs
+  simpa [agg, firstErr_eq_none.mpr h, core] using this
+
+/-! ## "SUBTOTAL(n, ...) equals the AVERAGE/COUNT/MAX/MIN/SUM it names" -/
+
+/-- Excel's documented function numbers of the five aggregates (SUBTOTAL reference page) -/
+def Fn.code : Fn → Int
+  | .average => 1 | .count => 2 | .max => 4 | .min => 5 | .sum => 9
+
+/-- **subtotal**: for the live dispatch table, SUBTOTAL(n, …) and SUBTOTAL(100+n, …) are the aggregate Excel
+    numbers n, on every argument list -/
+theorem C14_subtotal (f : Fn) (cs : List Val) :
+    subtotal f.code cs = .value (agg f cs) ∧ subtotal (f.code + 100) cs = .value (agg f cs) := by
+  cases f <;> exact ⟨rfl, rfl⟩
+
+/-- the live table has its keys below 100, and 100+n dispatches like n for every key (hidden-row variants) -/
+theorem C14_subtotal_table :
+    (∀ n ∈ Gen.subtotalKeys, n < 100 ∧ (Gen.subtotalFuncs n).isSome = true ∧
+      subtotalName ((n : Int) + 100) = subtotalName n) ∧
+    subtotalName 0 = none ∧ subtotalName 100 = none ∧ subtotalName (-9) = none := by
+  decide
+
+/-- every entry of the live table that the function library resolves is one of the modelled aggregates
+    (so `SubRes.unmodelled` never occurs; a new library function reachable through SUBTOTAL breaks this proof) -/
+theorem C14_subtotal_modelled :
+    ∀ n ∈ Gen.subtotalKeys, ∀ name, Gen.subtotalFuncs n = some name →
+      (Gen.subtotalResolved name).isSome = true → (byName name).isSome = true := by
+  decide
+
+/-! ## "SUMPRODUCT of equally shaped ranges is the sum of pointwise products with non-numbers counted as 0" -/
+
+theorem allSameShape_of_rect {r c : Nat} (hr : 0 < r) (as : List Arr) (hne : as ≠ [])
+    (h : ∀ a ∈ as, Rect r c a) : allSameShape as = true := by
+  cases as with
+  | nil => exact absurd rfl hne
+  | cons a as =>
+    simp only [allSameShape, List.all_eq_true, decide_eq_true_eq]
+    intro b hb
+    rw [rect_shape (h a (by simp)) hr, rect_shape (h b (List.mem_cons_of_mem _ hb)) hr]
+
+private theorem any_isScalar_arrs (as : List Arr) : (as.map Arg.arr).any isScalar = false := by
+  induction as with
+  | nil => rfl
+  | cons a as ih => simp [isScalar, ih]
+
+private theorem filterMap_arrs (as : List Arr) : (as.map Arg.arr).filterMap arrOf? = as := by
+  induction as with
+  | nil => rfl
+  | cons a as ih => simp [arrOf?, ih]
+
+theorem sumproduct_arrs (as : List Arr) (he : NoErr (cellsOf (as.map Arg.arr))) :
+    sumproduct (as.map Arg.arr) =
+      if allSameShape as then .num (rsum (colProd (as.map fun a => a.flatten.map n0))) else .err .value := by
+  simp only [sumproduct, firstErr_eq_none.mpr he, any_isScalar_arrs, filterMap_arrs]
+  simp
+
+/-- **sumproduct** (any number of ranges): for `r × c` rectangles without error cells, SUMPRODUCT is
+    Σ_{i < r·c} Π_{ranges} (cell i of the range, a non-number counted as 0) -/
+theorem C14_sumproduct (r c : Nat) (hr : 0 < r) (as : List Arr) (hne : as ≠ [])
+    (hrect : ∀ a ∈ as, Rect r c a) (he : NoErr (cellsOf (as.map Arg.arr))) :
+    sumproduct (as.map Arg.arr) =
+      .num (rsum ((List.range (r * c)).map fun i => rprod (as.map fun a => n0 (a.flatten.getD i .blank)))) := by
+  rw [sumproduct_arrs as he, allSameShape_of_rect hr as hne hrect]
+  simp only [↓reduceIte]
+  congr 2
+  rw [colProd_eq (r * c)]
+  · apply List.map_congr_left
+    intro i hi
+    congr 1
+    rw [List.map_map]
+    apply List.map_congr_left
+    intro a ha
+    have hl := rect_flatten_length (hrect a ha)
+    have hi' : i < a.flatten.length := by rw [hl]; exact List.mem_range.mp hi
+    simp only [Function.comp, List.getD_eq_getElem?_getD, List.getElem?_map, List.getElem?_eq_getElem hi',
+      Option.map_some, Option.getD_some]
+  · simpa using hne
+  · intro row hrow
+    simp only [List.mem_map] at hrow
+    obtain ⟨a, ha, rfl⟩ := hrow
+    rw [List.length_map]; exact rect_flatten_length (hrect a ha)
+
+/-- **sumproduct** (two ranges, two-dimensional form): Σ_rows Σ_columns A[i][j]·B[i][j], non-numbers as 0 -/
+theorem C14_sumproduct_two (A B : Arr) (hs : shape A = shape B)
+    (hrows : ∀ p ∈ A.zip B, p.1.length = p.2.length) (he : NoErr (A.flatten ++ B.flatten)) :
+    sumproduct [.arr A, .arr B] =
+      .num (rsum (List.zipWith (fun ra rb => rsum (List.zipWith (fun a b => n0 a * n0 b) ra rb)) A B)) := by
+  have he' : NoErr (cellsOf ([A, B].map Arg.arr)) := by simpa [cellsOf, argCells] using he
+  have := sumproduct_arrs [A, B] he'
+  simp only [List.map_cons, List.map_nil] at this
+  rw [this]
+  simp only [allSameShape, List.all_cons, List.all_nil, hs, decide_true, Bool.and_self, ↓reduceIte, colProd]
+  congr 1
+  have hz : List.zipWith (fun x1 x2 => x1 * x2) (A.flatten.map n0) (B.flatten.map n0)
+      = List.zipWith (fun a b => n0 a * n0 b) A.flatten B.flatten := by
+    rw [List.zipWith_map]
+  rw [hz, zipWith_flatten _ A B hrows, rsum_flatten]
+  congr 1
+  rw [List.map_zipWith]
+
+/-- replacing every text / logical / blank cell by the number 0 -/
+def fill0 (v : Val) : Val := if ignorable v then .num 0 else v
+
+/-- **non-numbers counted as 0**: SUMPRODUCT of ranges is unchanged when every non-number (text, logical, blank)
+    is overwritten with 0 -/
+theorem C14_sumproduct_zero_fill (as : List Arr) :
+    sumproduct (as.map Arg.arr) = sumproduct ((as.map fun a => a.map fun row => row.map fill0).map Arg.arr) := by
+  have hn0 : ∀ v, n0 (fill0 v) = n0 v := by intro v; cases v <;> simp [fill0, ignorable, n0]
+  have hflat : ∀ a : Arr, (a.map fun row => row.map fill0).flatten = a.flatten.map fill0 := by
+    intro a; induction a with
+    | nil => rfl
+    | cons row a ih => simp only [List.map_cons, List.flatten_cons, List.map_append, ih]
+  have hfe : ∀ cs : List Val, firstErr (cs.map fill0) = firstErr cs := by
+    intro cs; induction cs with
+    | nil => rfl
+    | cons v cs ih => rw [List.map_cons, firstErr_cons, firstErr_cons]; cases v <;> simp [fill0, ignorable, ih]
+  have hshape : ∀ a : Arr, shape (a.map fun row => row.map fill0) = shape a := by
+    intro a; cases a with
+    | nil => rfl
+    | cons row a =>
+      unfold shape
+      simp only [List.map_cons, List.length_cons, List.length_map, List.headD_cons]
+  have hcells : cellsOf ((as.map fun a => a.map fun row => row.map fill0).map Arg.arr)
+      = (cellsOf (as.map Arg.arr)).map fill0 := by
+    rw [cellsOf_arrs, cellsOf_arrs]
+    induction as with
+    | nil => rfl
+    | cons a as ih => simp only [List.map_cons, List.flatten_cons, List.map_append, hflat, ih]
+  have hall : allSameShape (as.map fun a => a.map fun row => row.map fill0) = allSameShape as := by
+    cases as with
+    | nil => rfl
+    | cons a as => simp only [List.map_cons, allSameShape, List.all_map, Function.comp_def, hshape]
+  simp only [sumproduct, hcells, hfe, any_isScalar_arrs, filterMap_arrs, hall]
+  cases firstErr (cellsOf (as.map Arg.arr)) with
+  | some e => rfl
+  | none =>
+    simp only [Bool.false_eq_true, ↓reduceIte, List.map_map]
+    congr 4
+    apply List.map_congr_left
+    intro a _
+    simp only [Function.comp, hflat, List.map_map]
+    apply List.map_congr_left
+    intro v _
+    simp [hn0]
+
+/-- outside the statement, as the code does it: an error cell anywhere (arguments left to right, row-major) is
+    returned, before shapes are looked at -/
+theorem C14_sumproduct_error (args : List Arg) (e : Err) (h : firstErr (cellsOf args) = some e) :
+    sumproduct args = .err e := by
+  simp [sumproduct, h]
+
+/-- outside the statement, as the code does it: ranges of different shapes (and no error cell) give #VALUE! -/
+theorem C14_sumproduct_shape_mismatch (as : List Arr) (he : NoErr (cellsOf (as.map Arg.arr)))
+    (a b : Arr) (ha : a ∈ as) (hb : b ∈ as) (hab : shape a ≠ shape b) :
+    sumproduct (as.map Arg.arr) = .err .value := by
+  rw [sumproduct_arrs as he]
+  have : allSameShape as = false := by
+    cases as with
+    | nil => simp at ha
+    | cons x xs =>
+      apply Bool.eq_false_iff.mpr
+      intro hall
+      simp only [allSameShape, List.all_eq_true, decide_eq_true_eq] at hall
+      have hx : ∀ y ∈ x :: xs, shape y = shape x := by
+        intro y hy
+        rcases List.mem_cons.mp hy with rfl | hy
+        · rfl
+        · exact hall y hy
+      exact hab ((hx a ha).trans (hx b hb).symm)
+  simp [this]
+
+/-! ## non-vacuity: the hypotheses are satisfiable by concrete, non-trivial instances -/
+
+/-- a mixed 2×3 range: numbers, numeric text, a logical, a blank -/
+def exA : Arr := [[.num 1, .str "2".toList, .bool true], [.blank, .str "abc".toList, .num (5/2)]]
+/-- the same cells, permuted and reshaped to 3×2 -/
+def exB : Arr := [[.num (5/2), .blank], [.bool true, .num 1], [.str "abc".toList, .str "2".toList]]
+
+example : NoErr exA.flatten := by simp [NoErr, exA]
+example : OneErr exA.flatten := by intro e₁ e₂ h; simp [exA] at h
+example : exA.flatten.Perm exB.flatten := by decide +kernel
+example : aggA .sum exA = .num (7/2) ∧ aggA .count exA = .num 2 ∧ aggA .average exA = .num (7/4) ∧
+    aggA .min exA = .num 1 ∧ aggA .max exA = .num (5/2) := by decide +kernel
+example : aggA .sum exB = .num (7/2) := by decide +kernel
+/-- one error value, occurring twice: `OneErr` holds and the permutation theorem applies -/
+example : OneErr [Val.num 1, .err .na, .str [], .err .na] := by
+  intro e₁ e₂ h1 h2
+  simp at h1 h2; rw [h1, h2]
+example : agg .max [Val.num 1, .err .na, .str [], .err .na] = .err .na := by decide +kernel
+example : Rect 2 3 exA := ⟨rfl, by simp [exA]⟩
+example : sumproduct [.arr exA, .arr exA] = .num (29/4) := by decide +kernel
+example : sumproduct [.arr exA, .arr exB] = .err .value := by decide +kernel
+example : subtotal 109 exA.flatten = .value (.num (7/2)) := by decide +kernel
+
+end Pycel.Agg
